@@ -497,6 +497,27 @@ def check_property(prop, tier, master, n_ff, n_f, workers, strat_scale=1.0):
           flush=True)
     tot = run_batch(prop, tier, master, n_ff, n_f, workers, deadline, strata)
     tot["strata"] = strata
+    # regression: the minimised traces of the defects that were found and repaired
+    # (findings/*.json, recorded before the "fix:" commits) are re-executed in every
+    # run of the check; a fixed finding suppresses nothing - if the defect returns,
+    # its trace reports it at once instead of waiting for the random search
+    import glob
+    for fpath in sorted(glob.glob(os.path.join(HERE, "findings", "*.json"))):
+        try:
+            with open(fpath) as f:
+                fdoc = json.load(f)
+        except Exception:
+            continue
+        if fdoc.get("property") != prop:
+            continue
+        A.reset()
+        rr = R.replay(prop, fdoc["ops"])
+        tot["oracle"]["regression-traces"] += 1
+        if rr["violation"]:
+            tot["viol"].append({"seed": int(fdoc.get("seed") or 0), "i": -1, "faults": "strat:regression",
+                                "vclass": list(rr["vclass"]), "violation": rr["violation"],
+                                "ops": fdoc["ops"], "swarm": {"regression_trace": os.path.basename(fpath)},
+                                "prefix": []})
     xviol = []
     if prop == "C15" and not STOP_FIRST:
         try:
